@@ -1,8 +1,9 @@
 (* C17 driver: replays the harness observations of the value journey on the extracted model
    (Model/Value.v) and evaluates the property directly on the implementation's answers.
 
-   Correspondence: every observation must equal the model of the code as it is (fx = false) or the
-   model of the code after the repairs of fixes/C17-*.patch (fx = true); anything else is a MISMATCH.
+   Correspondence: every observation must equal the model of the code as it is now (fx = true: /repo with
+   the repairs 0d53a20, f016b97, 951349c); anything else is a MISMATCH.  When the observation equals the
+   model of the code before those repairs (fx = false) the message says so (a regression).
    Monitors: stated on the observation alone (source value, declared width, what came back), with
    independent OCaml code for the expected decimal text / float reading / base64. *)
 open Model
@@ -268,6 +269,9 @@ let json_disagrees (fx : bool) (rfc : bool) (t : tv) (obs : string) : string opt
   if ok then None
   else Some (match m with Panic -> "panic" | Err -> "err" | Ok None -> "absent" | Ok (Some _) -> "a different leaf")
 
+let before_note rfc t obs =
+  match json_disagrees false rfc t obs with None -> " (the behaviour before the repairs)" | Some _ -> ""
+
 (* ------------------------------------------------------------------ the property, stated on observations *)
 let rec canon_og = function
   | A s -> S s
@@ -439,12 +443,10 @@ let () =
       let g = parse_g gs in
       if ver = "v2" then shape_stats "rt" g opts;
       seen_distinct ("r" ^ gs ^ "|" ^ opts);
-      let m0 = native_model false g opts in
-      if native <> m0 then begin
-        let m1 = native_model true g opts in
-        if native = m1 then stat "rt.repaired-behaviour"
-        else mismatch id (Printf.sprintf "%s GnmiTypedValueToNativeType %s opts=%s: impl=%s model=%s (repaired model=%s)" ver gs opts native m0 m1)
-      end;
+      let m1 = native_model true g opts in
+      if native <> m1 then
+        mismatch id (Printf.sprintf "%s GnmiTypedValueToNativeType %s opts=%s: impl=%s model=%s%s" ver gs opts native m1
+                       (if native = native_model false g opts then " (the behaviour before the repairs)" else ""));
       (match strip_ok native with
        | Some ts ->
          let m = gnmi_model (parse_tv ts) in
@@ -458,12 +460,9 @@ let () =
     | [ "value.json"; id; ver; gs; opts; ts; rfc; obs ] ->
       stat ("value.json." ^ ver ^ ".rfc" ^ rfc);
       let g = parse_g gs and t = parse_tv ts in
-      (match json_disagrees false (rfc = "1") t obs with
+      (match json_disagrees true (rfc = "1") t obs with
        | None -> ()
-       | Some w0 ->
-         (match json_disagrees true (rfc = "1") t obs with
-          | None -> stat "json.repaired-behaviour"
-          | Some w1 -> mismatch id (Printf.sprintf "%s handleLeafValue rfc7951=%s of %s: impl=%s, model expects %s (repaired model: %s)" ver rfc ts obs w0 w1)));
+       | Some w1 -> mismatch id (Printf.sprintf "%s handleLeafValue rfc7951=%s of %s: impl=%s, model expects %s%s" ver rfc ts obs w1 (before_note (rfc = "1") t obs)));
       if rfc = "1" then monitor_json id (ver ^ " BuildTree") g opts obs
     | [ "value.tv"; id; ver; ts; back; j1; j0 ] ->
       stat ("value.tv." ^ ver);
@@ -473,12 +472,9 @@ let () =
       let m = gnmi_model t in
       if m <> back then mismatch id (Printf.sprintf "%s NativeTypeToGnmiTypedValue of stored %s: impl=%s model=%s" ver ts back m);
       List.iter (fun (rfc, obs) ->
-          match json_disagrees false rfc t obs with
+          match json_disagrees true rfc t obs with
           | None -> ()
-          | Some w0 ->
-            (match json_disagrees true rfc t obs with
-             | None -> stat "json.repaired-behaviour"
-             | Some _ -> mismatch id (Printf.sprintf "%s handleLeafValue rfc7951=%b of stored %s: impl=%s, model expects %s" ver rfc ts obs w0)))
+          | Some w1 -> mismatch id (Printf.sprintf "%s handleLeafValue rfc7951=%b of stored %s: impl=%s, model expects %s%s" ver rfc ts obs w1 (before_note rfc t obs)))
         [ (true, j1); (false, j0) ]
     | [ "value.str"; id; gs; obs ] ->
       stat "value.str";
@@ -486,10 +482,9 @@ let () =
        | D (d, p) ->
          seen_distinct ("d" ^ gs);
          let enc fx = enc_res hex_of (str_decimal64_utils fx (z_of_dec d) (z_of_int p)) in
-         if obs <> enc false then begin
-           if obs = enc true then stat "str.repaired-behaviour"
-           else mismatch id (Printf.sprintf "StrVal %s: impl=%s model=%s (repaired model=%s)" gs obs (enc false) (enc true))
-         end;
+         if obs <> enc true then
+           mismatch id (Printf.sprintf "StrVal %s: impl=%s model=%s%s" gs obs (enc true)
+                          (if obs = enc false then " (the behaviour before the repairs)" else ""));
          if p <= 18 then begin
            let want = "ok:" ^ hex_of_raw (decimal_text d p) in
            (* StrVal's human-readable form writes a whole number as <digits>.0 *)
@@ -508,17 +503,13 @@ let () =
         mismatch id (Printf.sprintf "Set of %s (opts %s) was not answered, twice, on fresh instances" gs opts)
       else if code <> "OK" then begin
         (* the model says whether the conversion refuses the value *)
-        let m0 = native_model false g opts and m1 = native_model true g opts in
-        if m0 <> "err" && m1 <> "err" then mismatch id (Printf.sprintf "Set of %s refused with %s, the model accepts it" gs code);
+        let m1 = native_model true g opts in
+        if m1 <> "err" then mismatch id (Printf.sprintf "Set of %s refused with %s, the model accepts it" gs code);
         if supported g && not (match precision_of g with Some p -> p > 18 | None -> false) then
           specviol id "c17_supported_value_refused" (Printf.sprintf "Set refuses %s (opts %s) with %s" gs opts code)
       end else begin
-        let m0 = native_model false g opts in
-        if stored <> m0 then begin
-          let m1 = native_model true g opts in
-          if stored = m1 then stat "e2e.repaired-behaviour"
-          else mismatch id (Printf.sprintf "stored value after Set %s opts=%s: impl=%s model=%s" gs opts stored m0)
-        end;
+        let m1 = native_model true g opts in
+        if stored <> m1 then mismatch id (Printf.sprintf "stored value after Set %s opts=%s: impl=%s model=%s" gs opts stored m1);
         (match strip_ok stored with
          | Some ts ->
            let t = parse_tv ts in
@@ -526,12 +517,9 @@ let () =
            if m <> proto then mismatch id (Printf.sprintf "Get PROTO of stored %s: impl=%s model=%s" ts proto m);
            if m <> dev then mismatch id (Printf.sprintf "device request for stored %s: impl=%s model=%s" ts dev m);
            List.iter (fun (what, obs) ->
-               match json_disagrees false true t obs with
+               match json_disagrees true true t obs with
                | None -> ()
-               | Some w0 ->
-                 (match json_disagrees true true t obs with
-                  | None -> stat "json.repaired-behaviour"
-                  | Some _ -> mismatch id (Printf.sprintf "%s of stored %s: impl=%s, model expects %s" what ts obs w0)))
+               | Some w1 -> mismatch id (Printf.sprintf "%s of stored %s: impl=%s, model expects %s%s" what ts obs w1 (before_note true t obs)))
              [ ("Get JSON", js); ("model plugin document", doc) ];
            monitor_proto id "Set -> Get PROTO" g proto;
            monitor_proto id "Set -> device request" g dev;
